@@ -39,7 +39,11 @@ const cstl_STRING_char_t * STRF(
 const cstl_STRING_char_t * STRF(str, const struct cstl_STRING * const s)
 {
     const cstl_STRING_char_t * str = STRF(data, (struct cstl_STRING *)s);
-    if (str == NULL) {
+    if (str == NULL || cstl_vector_size(&s->v) == 0) {
+        /*
+         * no storage, or storage that was only reserved and
+         * does not hold a terminator yet
+         */
         str = &STRV(nul);
     }
     return str;
